@@ -303,5 +303,35 @@ ast = c12.clauses_ast((("I", "bor_n", "cols"),))
 check("leak predicate: joined pair with s.k = 2 claimed by the NOT MATCHED clause", c12.bare_or_leak([(2, "b")], [(2, "S2", 1)], T, ast), (True, True))
 check("every bare-OR list is valid and has exactly one such clause", all(M.valid_clause_list(c12.clauses_ast(x)) and sum(1 for c in x if c[1] and c[1].startswith("bor_")) == 1 for x in c12.BARE_OR_LISTS), True)
 
+# ---- 13. placement: tables outside the session's current schema (db1.s1), decoys in it -------------------------------------------
+check(
+    "render: target in another schema, schema-qualified",
+    c12.render((("U", None, "src"), ("I", None, "cols")), "x_schema_tgt"),
+    "MERGE INTO s2.t USING s ON t.k = s.k WHEN MATCHED THEN UPDATE SET v = s.v WHEN NOT MATCHED THEN INSERT (k, v) VALUES (s.k, s.v)",
+)
+check(
+    "render: target in another database (alias), source in another schema (alias)",
+    c12.render((("D", None), ("I", None, "cols")), "x_db_both_alias"),
+    "MERGE INTO db2.s2.t AS tgt USING s2.s AS src ON tgt.k = src.k WHEN MATCHED THEN DELETE "
+    "WHEN NOT MATCHED THEN INSERT (k, v) VALUES (src.k, src.v)",
+)
+ok = True
+for sp, (tloc, sloc) in c12.PLACEMENT.items():
+    tgt, _tq, src = c12.SPELLINGS[sp][0], c12.SPELLINGS[sp][1], c12.SPELLINGS[sp][2]
+    # the name written in the statement resolves, from db1.s1, to the placement: full name, or schema name within db1
+    def resolves(text, loc):
+        q = ".".join(text.split(" ")[0].split(".")[:-1])  # first word without its last component ({T} / s)
+        if loc == c12.HOME:
+            return q in ("", "s1", "db1.s1")
+        return q == loc or (loc.startswith("db1.") and q == loc.split(".")[1])
+    src_name = src[src.index("FROM}") + 6 :].split(")")[0] if src.startswith("(") else src
+    if not resolves(tgt, tloc) or not resolves(src_name, sloc) or (tloc, sloc) == (c12.HOME, c12.HOME):
+        ok = False
+        print("   placement mismatch:", sp, tgt, tloc, src_name, sloc)
+check("every placement spelling names its tables where the harness puts them, and none is entirely in the current schema", ok, True)
+check("spellings without a placement entry live in the current schema", c12.placement("db_q_full"), ("db1.s1", "db1.s1"))
+check("decoy contents differ from every generated target / source content", (set(c12.DECOY_T) & {r for tk in c12.ALL_TARGETS for r in c12.target_rows(tk)}, set(c12.DECOY_S) & set(c12.SRC.values())), (set(), set()))
+check("quick tier contains placements of target-only, source-only and both, by schema and by database", {c12.placement(sp) for sp in c12.QUICK_SPELLINGS} >= {("db1.s2", "db1.s1"), ("db2.s2", "db1.s1"), ("db2.s1", "db1.s1"), ("db1.s1", "db1.s2"), ("db1.s1", "db2.s2"), ("db2.s2", "db1.s2")}, True)
+
 print(f"\n{len(FAILS)} failed" if FAILS else "\nall passed")
 sys.exit(1 if FAILS else 0)
